@@ -257,7 +257,9 @@ def check_flat_runs(rep, tier):
     ex_int = univ.Integer().subtype(explicitTag=_tag.Tag(_tag.tagClassContext, _tag.tagFormatSimple, 0))
     ex_seq = univ.Sequence(componentType=namedtype.NamedTypes(namedtype.NamedType('a', ex_int)))
     pats = ['a000', 'a001', 'a002', 'a003a001', 'a00302', 'bf1f00', 'bf1f01', 'a100a000', '3000', '2400', '0400', '0500',
-            'a0020500', 'a0030500', 'a0010500', '6000', 'e001', 'a080', '30800000']
+            'a0020500', 'a0030500', 'a0010500', '6000', 'e001', 'a080', '30800000',
+            # definite-length containers and constructed strings that claim fewer octets than the element inside them needs
+            '3001', '3101', '3002', '2401', '2301', '30033001', '3003a001', '31023001', '2c01', '30810130', 'a0023001', '3002a000']
     for pat in pats:
         unit = bytes.fromhex(pat)
         for count in ((700, 2000) if tier == 'quick' else (400, 700, 1000, 2000, 5000)):
